@@ -20,7 +20,11 @@ RULE = ("valid streams of every method (sequential, kd-tree, Edgebreaker standar
         'hook campaign (harness ops tcount / tenc: the encoder re-run with exactly one semantic value replaced — '
         'traversal / valence symbols, seam / start-face bits, split-event fields; accept / reject compared with '
         'the Lean model), the corrupt-stream families of ebcases / kdcases / legacycases (accept / reject + '
-        'geometry against the complete Lean decoder) and the regression streams of repaired findings')
+        'geometry against the complete Lean decoder) and the regression streams of repaired findings (dcc9947, '
+        'c9df685, 63027a3); the structure-aware bases include hand-built legacy 2.0-2.2 integer / float kd-tree '
+        'streams (harness op legacykd; no Lean model below 2.3: implementation only), sequential / kd-tree point '
+        'clouds spliced into one stream with 2..3 attributes decoders, and valence-traversal Edgebreaker streams '
+        'whose six per-context symbol counts are located by the model tag at:valence_context_count')
 THEOREM_BACKED = ('DracoProps.C02: decode_total; decode_returns_status (decodeGeometrySeq: geometry and status ok, or no '
                   'geometry and an error status) and decode_returns_status_with (dispatcher with arbitrary disciplined body'
                   ' decoders); decode_some_ok_valid; decode_consumes_prefix / consumed_le_length (remaining input is a '
